@@ -32,6 +32,7 @@ type Engine struct {
 	varScopes map[*ssa.Alloc]*types.Scope
 	callGraphSCC map[string]int
 	KnownFindings map[string][]KFExcept
+	Renames map[string]map[string]string // function key -> recorded local name -> current local name
 }
 
 func (eng *Engine) errorf(f string, a ...any) {
